@@ -1,7 +1,7 @@
 """
 Record a repaired defect:  tools_fixed.py <finding-id> <property> <replay file> <mutant name or -> <<< "<what failed>"
  - copies the minimised replay to findings/fixed/<finding-id>.json and checks that it replays without violation,
- - appends the 'fixed:' entry (commit = HEAD of /repo) to known_findings.json,
+ - appends the 'fixed:' entry (commit = $FIX_COMMIT or HEAD of /repo) to known_findings.json,
  - writes mutants/<property>-<mutant name>.patch as the revert of the HEAD commit of /repo (sigma/ only).
 """
 import json
@@ -13,7 +13,7 @@ import sys
 fid, prop, replay, mutant = sys.argv[1:5]
 what = sys.stdin.read().strip()
 here = os.path.dirname(os.path.abspath(__file__))
-commit = subprocess.run("git -C /repo log --format=%h -1", shell=True, capture_output=True, text=True).stdout.strip()
+commit = os.environ.get("FIX_COMMIT") or subprocess.run("git -C /repo log --format=%h -1", shell=True, capture_output=True, text=True).stdout.strip()
 dst = f"findings/fixed/{fid}.json"
 shutil.copy(replay, os.path.join(here, dst))
 r = subprocess.run([os.path.join(here, "check"), "replay", dst], cwd=here, capture_output=True, text=True)
@@ -25,6 +25,6 @@ d["findings"].append({"id": fid, "property": prop, "status": "fixed", "commit": 
                       "line": f"fixed: property={prop} {commit} {what}", "witness": [dst]})
 json.dump(d, open(p, "w"), indent=1)
 if mutant != "-":
-    diff = subprocess.run("git -C /repo diff HEAD~1 HEAD -R -- sigma", shell=True, capture_output=True, text=True).stdout
+    diff = subprocess.run(f"git -C /repo diff {commit}~1 {commit} -R -- sigma", shell=True, capture_output=True, text=True).stdout
     open(os.path.join(here, "mutants", f"{prop}-{mutant}.patch"), "w").write(diff)
 print("recorded", fid, commit)
